@@ -17,6 +17,68 @@ pub enum ChildFail {
     Other(String),
 }
 
+/// Fault `address_space`: replace this (forked) child by a freshly exec'd copy of the
+/// simulator, which gets a new address-space layout from the kernel, reads the plan from an
+/// inherited memfd, runs it and writes the outcome to the inherited pipe (`sim child`).
+/// Never returns.
+unsafe fn exec_fresh(plan: &Plan, wfd: i32) -> ! {
+    let mut p = plan.clone();
+    p.fresh_exec = false;
+    let bytes = serde_json::to_vec(&p).unwrap_or_default();
+    let mfd = libc::memfd_create(b"plan\0".as_ptr() as *const libc::c_char, 0);
+    if mfd < 0 {
+        libc::_exit(4);
+    }
+    let mut off = 0usize;
+    while off < bytes.len() {
+        let n = libc::write(mfd, bytes[off..].as_ptr() as *const libc::c_void, bytes.len() - off);
+        if n <= 0 {
+            libc::_exit(4);
+        }
+        off += n as usize;
+    }
+    libc::lseek(mfd, 0, libc::SEEK_SET);
+    let exe = std::ffi::CString::new("/proc/self/exe").unwrap();
+    let a0 = std::ffi::CString::new("sim").unwrap();
+    let a1 = std::ffi::CString::new("child").unwrap();
+    let a2 = std::ffi::CString::new(mfd.to_string()).unwrap();
+    let a3 = std::ffi::CString::new(wfd.to_string()).unwrap();
+    let argv = [a0.as_ptr(), a1.as_ptr(), a2.as_ptr(), a3.as_ptr(), std::ptr::null()];
+    libc::execv(exe.as_ptr(), argv.as_ptr());
+    libc::_exit(5);
+}
+
+/// `sim child <plan-fd> <out-fd>`: the exec'd half of `exec_fresh`.
+pub fn child_main(rfd: i32, wfd: i32) -> ! {
+    unsafe {
+        let mut f = std::fs::File::from_raw_fd(rfd);
+        let mut buf = Vec::new();
+        if f.read_to_end(&mut buf).is_err() {
+            libc::_exit(6);
+        }
+        drop(f);
+        let plan: Plan = match serde_json::from_slice(&buf) {
+            Ok(p) => p,
+            Err(_) => libc::_exit(6),
+        };
+        drop(buf);
+        let out = crate::exec::run_plan_here(&plan);
+        let bytes = serde_json::to_vec(&out).unwrap_or_else(|e| {
+            format!("{{\"harness_error\":\"serialise: {e}\"}}").into_bytes()
+        });
+        let mut off = 0usize;
+        while off < bytes.len() {
+            let n = libc::write(wfd, bytes[off..].as_ptr() as *const libc::c_void, bytes.len() - off);
+            if n <= 0 {
+                libc::_exit(3);
+            }
+            off += n as usize;
+        }
+        libc::close(wfd);
+        libc::_exit(0);
+    }
+}
+
 pub fn run_forked(plan: &Plan, timeout_ms: i32) -> Result<Outcome, ChildFail> {
     unsafe {
         let mut fds = [0i32; 2];
@@ -34,6 +96,9 @@ pub fn run_forked(plan: &Plan, timeout_ms: i32) -> Result<Outcome, ChildFail> {
             let devnull = libc::open(b"/dev/null\0".as_ptr() as *const libc::c_char, libc::O_WRONLY);
             if devnull >= 0 && std::env::var_os("VERIF_CHILD_STDERR").is_none() {
                 libc::dup2(devnull, 2);
+            }
+            if plan.fresh_exec {
+                exec_fresh(plan, fds[1]);
             }
             let out = crate::exec::run_plan_here(plan);
             let bytes = serde_json::to_vec(&out).unwrap_or_else(|e| {
